@@ -412,6 +412,7 @@ class Walker:
             st.env[a.vararg.arg] = fa["*" + a.vararg.arg] if fa and ("*" + a.vararg.arg) in fa else P("*" + a.vararg.arg)
         if a.kwarg:
             st.env[a.kwarg.arg] = fa["**" + a.kwarg.arg] if fa and ("**" + a.kwarg.arg) in fa else P("**" + a.kwarg.arg)
+        st.env.update(getattr(self.fi, "extra_env", {}))
         if self.fi.parent is not None:
             st.env["$closure"] = C(True)
             # free variables are implicit parameters, bound by the call (see calls.apply_repo)
@@ -923,6 +924,9 @@ class Walker:
             self.unsupported(node, "exception class expression")
         if chain[0] in st.env:
             t = st.env[chain[0]]
+            if len(chain) == 1 and isinstance(t, tuple) and len(t) == 2 and t[0] == "global" and t[1].startswith(("builtin:", "class:")):
+                # a parameter / local bound to an exception class (except unwelcome: ...)
+                return t[1].split(":", 1)[1].split(".")[-1]
             if t[0] == "global" and t[1].startswith("ext:"):
                 full = t[1][4:] + ("." + ".".join(chain[1:]) if chain[1:] else "")
                 nm = self.prog.exc_name_of_resolution(("ext", full))
@@ -1193,6 +1197,9 @@ class Walker:
             return None
         if isinstance(it, tuple) and len(it) == 3 and it[0] == "nt":
             return list(it[2])
+        if isinstance(it, tuple) and len(it) == 2 and it[0] == "global" and it[1].startswith("class:") and it[1][6:] in self.prog.classes and self.prog.classes[it[1][6:]].is_enum:
+            ci_e = self.prog.classes[it[1][6:]]
+            return [("enum", ci_e.qualname, nm) for nm in ci_e.enum_members()]
         if is_lit(it) and it[1] in ("list", "tuple", "set") and len(it[2]) <= self.UNROLL_MAX and untouched(it):
             if it[1] == "set" and len(it[2]) > 1:
                 return None  # iteration order of a set display is not the source order
@@ -1470,6 +1477,9 @@ class Walker:
         nodes = h.type.elts if isinstance(h.type, ast.Tuple) else [h.type]
         out = []
         for x in nodes:
+            if isinstance(x, ast.Name) and x.id in st.env and is_lit(st.env[x.id]) and st.env[x.id][1] == "tuple" and all(isinstance(it, tuple) and len(it) == 2 and it[0] == "global" for it in st.env[x.id][2]):
+                out.extend(it[1].split(":", 1)[1].split(".")[-1] for it in st.env[x.id][2])
+                continue
             names = self._exc_tuple_constant(x, st)
             if names is not None:
                 out.extend(names)
@@ -1683,6 +1693,10 @@ class Walker:
         else:
             raise AnalysisError("unresolved name %s at %s" % (r[1], self.site(node)))
         rest = list(rest)
+        if k == "class" and rest and r[1] in self.prog.classes and not self.prog.classes[r[1]].is_enum and self.prog.find_method(r[1], rest[0]) is None:
+            cv = self._class_constant(self.prog.classes[r[1]], rest[0])
+            if cv is not None:
+                t, rest = cv, rest[1:]
         if k == "class" and rest:
             ci_e = self.prog.classes.get(r[1])
             if ci_e is not None and ci_e.is_enum and rest[0] in ci_e.enum_members():
@@ -1766,6 +1780,26 @@ class Walker:
                 lit = self.eng.const_literal(b[1][6:])
                 if lit is not None and lit[0] == "nt":
                     nt = lit
+            if b[0] in ("obj", "nt", "enum") and len(b) == 3:
+                m_p = self.prog.find_method(b[1], e.attr)
+                if m_p is not None and m_p[0] == "repo" and any(isinstance(d, ast.Name) and d.id in ("property", "cached_property") or ast.unparse(d) in ("functools.cached_property",) for d in m_p[1].node.decorator_list):
+                    # a property: reading the attribute runs the method
+                    from .calls import apply_repo
+
+                    outs.extend(apply_repo(self, e, m_p[1], None, (b,), (), s))
+                    continue
+            if b[0] == "global" and b[1].startswith("class:") and b[1][6:] in self.prog.classes:
+                cv = self._class_constant(self.prog.classes[b[1][6:]], e.attr)
+                if cv is not None:
+                    outs.append((s, "val", cv))
+                    continue
+            if b[0] in ("obj", "nt") and len(b) == 3 and b[1] in self.prog.classes and not (b[0] == "obj" and (b, e.attr) in s.env.get("$heap", {})):
+                names_nt = [n for n, _d in self.prog.classes[b[1]].nt_fields()] if b[0] == "nt" else []
+                if e.attr not in names_nt:
+                    cv = self._class_constant(self.prog.classes[b[1]], e.attr)
+                    if cv is not None:
+                        outs.append((s, "val", cv))
+                        continue
             if b[0] == "obj" and len(b) == 3:
                 heap = s.env.get("$heap", {})
                 if (b, e.attr) in heap:
@@ -1798,6 +1832,20 @@ class Walker:
                 self.rz(outs, s, e, "AttributeError", "attribute %s on a value of unknown type" % e.attr, [("nohasattr", b, e.attr)])
             outs.append((s, "val", ("attr", b, e.attr)))
         return outs
+
+    def _class_constant(self, ci, name):
+        """value of a class-level constant `NAME = <static expression>` (no annotation-only fields)"""
+        if ci.is_enum:
+            return None
+        for st_ in ci.node.body:
+            tgt = None
+            if isinstance(st_, ast.Assign) and len(st_.targets) == 1 and isinstance(st_.targets[0], ast.Name):
+                tgt, val = st_.targets[0].id, st_.value
+            elif isinstance(st_, ast.AnnAssign) and isinstance(st_.target, ast.Name) and st_.value is not None and not ci.is_namedtuple:
+                tgt, val = st_.target.id, st_.value
+            if tgt == name:
+                return self.eng.static_term(ci.mod, val)
+        return None
 
     def global_term_is_free(self, name):
         fi = self.fi.parent
